@@ -3,7 +3,7 @@
    field tables: Gen/C11_Rinex{2,3}ObsFields.v (regenerated from the source on every run). *)
 From Coq Require Import Ascii String List Bool ZArith QArith Arith Lia.
 From Verif Require Import Lib.Text Lib.Decimal Lib.Fixed Model.C11_Rinex Model.C11_Check Spec.C11_RinexFormat Spec.C11_RinexFile
-     Proofs.C11_Rinex Proofs.C11_File3 Proofs.C11_Hdr3 Proofs.C11_Hdr2 Proofs.C11_File2 Proofs.C11_Body2 Proofs.C11_Final3.
+     Proofs.C11_Rinex Proofs.C11_File3 Proofs.C11_Hdr3 Proofs.C11_Hdr2 Proofs.C11_File2 Proofs.C11_Extras Proofs.C11_Body2 Proofs.C11_Final3 Proofs.C11_Comments.
 Import ListNotations.
 Local Open Scope nat_scope.
 Local Open Scope string_scope.
@@ -220,6 +220,87 @@ Theorem decimation_file_spec_v2 : forall rate f,
 Proof. exact decimation_file_spec_v2_l. Qed.
 Print Assumptions decimation_file_spec_v2.
 
+(* ---- optional header records through the regenerated header tables of BOTH parsers: MARKER NUMBER, REC # / TYPE / VERS,
+   ANT # / TYPE, APPROX POSITION XYZ (meta pos_x/y/z and data["pos"]), ANTENNA: DELTA H/E/N, INTERVAL, COMMENT, TIME OF LAST OBS.
+   [apply_hrec] is the explicit effect on meta / pos (Proofs/C11_Extras.v: meta_hrec, pos_hrec) *)
+Theorem header_record_roundtrip : forall tbl, tbl = G2.header_table \/ tbl = G3.header_table -> forall year r s, hrec_ok year r ->
+  header_line tbl (render_hrec r) s = Some (apply_hrec r s).
+Proof. intros tbl [E|E] year r s H; subst tbl; [apply (hrec_line_ok _ has_extras_G2 year)|apply (hrec_line_ok _ has_extras_G3 year)]; exact H. Qed.
+Print Assumptions header_record_roundtrip.
+
+Theorem header_record_roundtrip_marker_number : forall tbl, tbl = G2.header_table \/ tbl = G3.header_table -> forall year a s,
+  hrec_ok year (HMarkerNumber a) -> header_line tbl (render_hrec (HMarkerNumber a)) s = Some (apply_hrec (HMarkerNumber a) s).
+Proof. intros tbl T year a s. apply (header_record_roundtrip tbl T year (HMarkerNumber a) s). Qed.
+Print Assumptions header_record_roundtrip_marker_number.
+
+Theorem header_record_roundtrip_receiver : forall tbl, tbl = G2.header_table \/ tbl = G3.header_table -> forall year a b c s,
+  hrec_ok year (HReceiver a b c) -> header_line tbl (render_hrec (HReceiver a b c)) s = Some (apply_hrec (HReceiver a b c) s).
+Proof. intros tbl T year a b c s. apply (header_record_roundtrip tbl T year (HReceiver a b c) s). Qed.
+Print Assumptions header_record_roundtrip_receiver.
+
+Theorem header_record_roundtrip_antenna : forall tbl, tbl = G2.header_table \/ tbl = G3.header_table -> forall year a b s,
+  hrec_ok year (HAntenna a b) -> header_line tbl (render_hrec (HAntenna a b)) s = Some (apply_hrec (HAntenna a b) s).
+Proof. intros tbl T year a b s. apply (header_record_roundtrip tbl T year (HAntenna a b) s). Qed.
+Print Assumptions header_record_roundtrip_antenna.
+
+Theorem header_record_roundtrip_approx_position : forall tbl, tbl = G2.header_table \/ tbl = G3.header_table -> forall year x y z s,
+  hrec_ok year (HPosition x y z) -> header_line tbl (render_hrec (HPosition x y z)) s = Some (apply_hrec (HPosition x y z) s).
+Proof. intros tbl T year x y z s. apply (header_record_roundtrip tbl T year (HPosition x y z) s). Qed.
+Print Assumptions header_record_roundtrip_approx_position.
+
+Theorem header_record_roundtrip_antenna_delta : forall tbl, tbl = G2.header_table \/ tbl = G3.header_table -> forall year x y z s,
+  hrec_ok year (HDelta x y z) -> header_line tbl (render_hrec (HDelta x y z)) s = Some (apply_hrec (HDelta x y z) s).
+Proof. intros tbl T year x y z s. apply (header_record_roundtrip tbl T year (HDelta x y z) s). Qed.
+Print Assumptions header_record_roundtrip_antenna_delta.
+
+Theorem header_record_roundtrip_interval : forall tbl, tbl = G2.header_table \/ tbl = G3.header_table -> forall year x s,
+  hrec_ok year (HInterval x) -> header_line tbl (render_hrec (HInterval x)) s = Some (apply_hrec (HInterval x) s).
+Proof. intros tbl T year x s. apply (header_record_roundtrip tbl T year (HInterval x) s). Qed.
+Print Assumptions header_record_roundtrip_interval.
+
+Theorem header_record_roundtrip_comment : forall tbl, tbl = G2.header_table \/ tbl = G3.header_table -> forall year a s,
+  hrec_ok year (HComment a) -> header_line tbl (render_hrec (HComment a)) s = Some (apply_hrec (HComment a) s).
+Proof. intros tbl T year a s. apply (header_record_roundtrip tbl T year (HComment a) s). Qed.
+Print Assumptions header_record_roundtrip_comment.
+
+Theorem header_record_roundtrip_time_of_last_obs : forall tbl, tbl = G2.header_table \/ tbl = G3.header_table -> forall year t s,
+  hrec_ok year (HLastObs t) -> header_line tbl (render_hrec (HLastObs t)) s = Some (apply_hrec (HLastObs t) s).
+Proof. intros tbl T year t s. apply (header_record_roundtrip tbl T year (HLastObs t) s). Qed.
+Print Assumptions header_record_roundtrip_time_of_last_obs.
+
+(* any list of optional records in any order, comments interleaved *)
+Theorem header_records_any_order : forall tbl, tbl = G2.header_table \/ tbl = G3.header_table -> forall year rs s,
+  Forall (hrec_ok year) rs -> hfold tbl (map render_hrec rs) s = Some (apply_hrecs rs s).
+Proof. intros tbl [E|E] year rs s H; subst tbl; [apply (hrecs_ok _ has_extras_G2 year)|apply (hrecs_ok _ has_extras_G3 year)]; exact H. Qed.
+Print Assumptions header_records_any_order.
+
+(* ---- COMMENT lines inside the observation part (label COMMENT in columns 61..): both parsers leave state and cache unchanged,
+   whatever the text and whatever the cache.  (Event flags > 1 make midgard exit via log.fatal - outside the domain.)
+   Not yet part of the file models file2 / file3: see design/C11.md. *)
+Theorem body_comment_line_ignored_v3 : forall rate text s c, comment_ok text ->
+  v3_line rate G3.obs_table (comment_line text) s c = Some (s, c).
+Proof. exact body_comment_v3. Qed.
+Print Assumptions body_comment_line_ignored_v3.
+
+Theorem body_comment_line_ignored_v2 : forall q rate text s c, comment_ok text ->
+  v2_line q rate G2.obs_table (comment_line text) s c = Some (s, c).
+Proof. exact body_comment_v2. Qed.
+Print Assumptions body_comment_line_ignored_v2.
+
+(* blank satellite-system identifier = GPS: one step of the satellite-list loop.  PARTIAL: the file theorem rinex2_file_roundtrip
+   requires an upper-case system letter in every identifier (sat2_id_ok); with a blank first identifier the epoch line is still
+   classified by the first conjunct of the label lambda, which is not proved. *)
+Theorem blank_system_id_is_gps_partial : forall b c rest fuel acc, is_space c = false ->
+  sat_loop (S fuel) (String " " (String b (String c rest))) acc =
+  sat_loop fuel rest (acc ++ [String "G" (String (if Ascii.eqb b " " then "0"%char else b) (String c ""))])%list.
+Proof.
+  intros b c rest fuel acc Hc. cbn [sat_loop take drop].
+  assert (R : rstrip (String " " (String b (String c ""))) = String " " (String b (String c ""))).
+  { apply rstrip_by_rtrimmed. simpl. rewrite Hc. reflexivity. }
+  rewrite R. reflexivity.
+Qed.
+Print Assumptions blank_system_id_is_gps_partial.
+
 (* ---- non-vacuity *)
 Example wf_cell_ex : cell_wf {| cv := VNum (-353); clli := Some 4%Z; cssi := None |}.
 Proof. repeat split; try discriminate; try (unfold fits_F; vm_compute); lia. Qed.
@@ -239,10 +320,17 @@ Definition ex_types_E : list string :=
   ["C1X"; "L1X"; "D1X"; "S1X"; "C5X"; "L5X"; "S5X"; "C8X"; "L8X"; "S8X"; "C7X"; "L7X"; "S7X"; "C6X"].
 Definition ex_t (s7 : Z) (clk : option Z) : epoch_t :=
   {| ep_y := 2018; ep_mo := 2; ep_d := 1; ep_h := 0; ep_mi := 0; ep_s7 := s7; ep_clk := clk; ep_zero := true; ep_cut := true |}.
+Definition ex_extras : hextras :=
+  {| hx0 := [HComment "G = GPS R = GLONASS"];
+     hx1 := [HMarkerNumber "10331M001"; HReceiver "5547R50473" "TRIMBLE NETR9" "5.20"; HComment ""; HAntenna "30318098" "TRM55971.00     NONE"];
+     hx2 := [HPosition 28201711098 5134859023 56789357406; HDelta 55460 70 (-180); HInterval 30000];
+     hx3 := [HLastObs {| ep_y := 2018; ep_mo := 2; ep_d := 1; ep_h := 23; ep_mi := 59; ep_s7 := 300000000; ep_clk := None;
+                         ep_zero := false; ep_cut := false |}; HComment "*** note 3.5 ***"] |}.
 Definition ex_file3 : file3 :=
   {| f3_marker := "TRDS";
      f3_systypes := [("G", ["C1C"; "L1C"]); ("E", ex_types_E)];
      f3_first := ex_t 300000000 None;
+     f3_x := ex_extras;
      f3_epochs :=
        [ {| e3_t := ex_t 300000000 (Some (-123456789012)%Z);
             e3_sats := [ {| s3_id := "G01"; s3_cells := [num 23629347915; blankcell]; s3_cut := true |};
@@ -274,7 +362,7 @@ Definition ex_sat2 (id : string) (k : Z) (last2 : bool) : sat2 :=
      s2_cut := true |}.
 (* 7 observation types; G01 has no L1/L2: its continuation line is empty; 13 satellites: continuation of the satellite list *)
 Definition ex_file2 : file2 :=
-  {| f2_marker := "TEST"; f2_types := ["C1"; "C2"; "C5"; "P1"; "P2"; "L1"; "L2"]; f2_first := ex_t2 0 None;
+  {| f2_marker := "TEST"; f2_types := ["C1"; "C2"; "C5"; "P1"; "P2"; "L1"; "L2"]; f2_first := ex_t2 0 None; f2_x := ex_extras;
      f2_epochs :=
        [ {| e2_t := ex_t2 0 (Some 123456789%Z);
             e2_sats := ex_sat2 "G01" 11000 false ::
